@@ -387,8 +387,30 @@ def run(ctx):
     subs = [c for c in own_nodes(opt.node) if isinstance(c, ast.Call) and isinstance(c.func, ast.Attribute) and c.func.attr == "submit"]
     ctx.require(len(subs) == 1, "R02.5: executor.submit call not found")
     a = [norm(x) for x in subs[0].args]
-    ctx.check(a[:4] == ["_optimize_sequential", "study", "func", "1"], "R02.5", opt.short, "one-trial-per-submission",
-              message=f"n_jobs branch submits {a[:4]}: each submission must run exactly one trial", how="executor.submit(_optimize_sequential, study, func, 1, ...)")
+    # what is submitted is the sequential loop itself, or a sibling that runs the very same statements plus loop-free extras
+    # (a specialised variant that e.g. reseeds the sampler first), with the argument bound to `n_trials` being the constant 1
+    sub_ok = False
+    gname = a[0] if a else ""
+    if p.has_func(OPT + "." + gname):
+        G = p.func(OPT + "." + gname)
+        strip = lambda body: [norm(x) for x in body if not (isinstance(x, ast.Expr) and isinstance(x.value, ast.Constant))]  # noqa: E731
+        sb, gb = strip(seq.node.body), strip(G.node.body)
+        rest = list(gb)
+        missing = []
+        for x in sb:
+            if x in rest:
+                rest.remove(x)
+            else:
+                missing.append(x)
+        extras_plain = all(not any(isinstance(y, (ast.While, ast.For)) or (isinstance(y, ast.Call) and dotted(y.func) == "_run_trial") for y in ast.walk(st))
+                           for st in G.node.body if norm(st) in rest)
+        same_loop = G is seq or (not missing and extras_plain)
+        gp = G.params()
+        idx = gp.index("n_trials") + 1 if "n_trials" in gp else None
+        one = idx is not None and idx < len(a) and a[idx] == "1" and a[1:3] == ["study", "func"]
+        sub_ok = same_loop and one
+    ctx.check(sub_ok, "R02.5", opt.short, "one-trial-per-submission",
+              message=f"n_jobs branch submits {a[:4]}: each submission must run exactly one trial of the sequential loop", how="executor.submit(<the sequential loop>, study, func, 1, ...)")
     go = CFG(opt.node, name=opt.qualname)
 
     def atom_sub(e):
